@@ -5,6 +5,7 @@ package dicescript
 import (
 	"math"
 	"strconv"
+	"sync"
 )
 
 func float64frombits(b uint64) float64 { return math.Float64frombits(b) }
@@ -30,3 +31,28 @@ func vJSONInt(x int64) string { return strconv.FormatInt(x, 10) }
 
 func vInf() float64 { return math.Inf(1) }
 func vNaN() float64 { return math.NaN() }
+
+// Footprint intrinsics (engine only).  Natively vConcurrently runs the body
+// on two goroutines repeatedly so that the race detector (go test -race,
+// used for the replay of footprint findings) can confirm a shared write.
+func vFootprintBegin()          {}
+func vSharedWrites() int        { return 0 }
+func vSharedWriteNames() string { return "" }
+func vConcurrently(f func()) {
+	if vSymbolic() {
+		f()
+		return
+	}
+	var wg sync.WaitGroup
+	for g := 0; g < 2; g++ {
+		wg.Add(1)
+		go func() {
+			defer wg.Done()
+			for i := 0; i < 40; i++ {
+				f()
+			}
+		}()
+	}
+	wg.Wait()
+}
+func vCheck(c bool, tag string) { vAssert(c, tag) }
